@@ -17,6 +17,8 @@ def load_checks():
     out = {}
     for f in sorted((VERIF / "harness" / "props").glob("c[0-9][0-9].py")):
         tree = ast.parse(f.read_text())
+        if any(isinstance(st, ast.Assign) and ast.unparse(st.targets[0]) == "MANIFEST_DISABLED" for st in tree.body):
+            continue  # check is being adapted; not claimed until it is green again on the current tree
         for st in tree.body:
             if isinstance(st, ast.Assign) and ast.unparse(st.targets[0]) == "MANIFEST":
                 d = ast.literal_eval(st.value)
